@@ -169,9 +169,13 @@ FILTER_TEMPLATES = [
     "{% for i in items limit: wanted %}{{ i.id }}{% endfor %}", "{% for i in (1..wanted) %}{{ i }}{% endfor %}",
     "{% cycle wanted, 'b' %}", "{% case wanted %}{% when nil %}n{% when false %}f{% else %}e{% endcase %}",
     "{% case flag %}{% when wanted %}w{% else %}e{% endcase %}",
+    # unnamed cycle tags are grouped by their arguments: two tags whose arguments differ only in WHICH path is missing
+    "{% cycle 'a', 'b', user.nick %}{% cycle 'a', 'b', user.alias %}", "{% cycle 'a', 'b', names[9] %}{% cycle 'a', 'b', items[9] %}",
+    "{% cycle 'a', 'b', wanted %}{% cycle 'a', 'b', wanted2 %}{% cycle 'a', 'b', wanted %}",
+    "{% for i in (1..3) %}{% cycle wanted.x, 'b' %}{% cycle wanted.y, 'b' %}{% endfor %}",
 ]
 FILTER_DATAS = [
-    {"items": [{"id": 1, "ok": False}, {"id": 2, "ok": False}], "names": ["a", "b"], "title": "hello", "n": 3, "flag": False},
+    {"user": {}, "items": [{"id": 1, "ok": False}, {"id": 2, "ok": False}], "names": ["a", "b"], "title": "hello", "n": 3, "flag": False},
     {"items": [{"id": 1, "ok": True}, {"id": 2}, {"id": 3, "ok": None}], "names": [], "title": "", "n": 0, "flag": None},
     {"items": [], "names": ["x"], "title": "l", "n": -1, "flag": True},
 ]
